@@ -46,6 +46,7 @@ func VerifC12_CompactPreservesView() {
 	// file numbers follow creation order, or run against it: databases written before the engine kept its numbering
 	// across restarts hold newer files with smaller numbers; the creation timestamp in the name tells the age
 	restarted := vsym.IntRange("numbering", 0, 1) == 1
+	emptyValues := vsym.IntRange("emptyValues", 0, 1) == 1
 	var files []fileSpec
 	for f := 0; f < nf; f++ {
 		fs := fileSpec{level: vsym.IntRange("level", 0, 1), seq: f + 1, ts: 1000 + f}
@@ -59,6 +60,9 @@ func VerifC12_CompactPreservesView() {
 			switch vsym.IntRange("has", 0, 2) {
 			case 1:
 				fs.keys[ki], fs.val[ki] = true, vsym.Bytes("v", 1)
+				if emptyValues {
+					fs.val[ki] = []byte{} // a live key whose value is empty: a value, not a deletion
+				}
 				vsym.Assert(w.Add(K[ki], fs.val[ki]) == nil, "Add failed")
 				any = true
 			case 2:
